@@ -6,7 +6,7 @@ from fractions import Fraction as Fr
 
 from ..nf import Rat, C
 from ..source import Unsupported, AnchorError, norm, walk_no_nested
-from ..xlate import Interp, Obj, ListV, Elem, SumV, Raised, RankOrder, DictV, Frame
+from ..xlate import Interp, Obj, ListV, Elem, SumV, Raised, RankOrder, DictV, Frame, _RaisedExc
 from .. import fitmodel
 from .common import same, show, coeff_vector, sub
 from .rxnfix import get_public
@@ -262,6 +262,47 @@ def fit_rules(run, repo, tables):
     return n_inst
 
 
+def partly_zero_data(run, repo, tables):
+    """heat capacities that vanish at the cold end of the grid only (an adsorbate whose vibrations are frozen out at
+    T_low: Cp/R(100 K) of a 2000 cm^-1 mode is 1e-9) are data like any other: the Cp coefficients come from the
+    least-squares fit, not from the shortcut for species without heat capacity.  Bounded instance: a concrete grid of
+    15 temperatures, first Cp entry zero, the other 14 generic."""
+    n = 0
+    for fam, qual, extra in (('shomate', SHO + '.Shomate', lambda I: {'units': I.D.sym('units')}),):
+        ci = repo.cls(qual)
+        owner, fn = repo.find_method(ci, 'from_data')
+        con = '%s.%s.from_data' % (qual.split('.')[-2], qual.split('.')[-1])
+        npts = 15
+        I = Interp(repo, order=RankOrder({'T_ref': 400}, const_ranks=True, fallback=_fallback_rank))
+        fitmodel.install(I)
+        D = I.D
+        cp = [C(0)]
+        for k in range(1, npts):
+            I.data_kind['cp%d' % k] = 'generic'
+            cp.append(D.sym('cp%d' % k))
+        cp = ListV(cp)
+        cp.is_array = True
+        kw = {'name': 'sp', 'T': grid(100, 1500, npts), 'CpoR': cp, 'T_ref': D.sym('T_ref'),
+              'HoRT_ref': D.sym('HoRT_ref'), 'SoR_ref': D.sym('SoR_ref')}
+        kw.update(extra(I))
+        o = I.call_function(owner.module, fn, [], kw, self_obj=ci, owner=owner, name=owner.qual + '.from_data')
+        key = 'Cp zero at the first of %d temperatures only' % npts
+        n += 1
+        if not isinstance(o, Obj):
+            run.fail('REF.fit', con, key, 'from_data does not build a species: %s' % show(o, 120), owner.module, fn)
+            continue
+        cp_slots = sorted(tables[fam]['powers'])
+        for label, vec in vectors_of(I, fam, o):
+            ks = fit_of(I, vec, cp_slots) if isinstance(vec, ListV) else []
+            run.check(len(ks) == 1, 'REF.fit', con, '%s %s' % (key, label),
+                      'the heat-capacity coefficients of %s %s: %s' % (
+                          label, 'do not come from a least-squares fit of the data although only one of the %d heat '
+                          'capacities is zero' % npts if not ks else 'mix the results of fits %s' % ks, show(vec, 200)),
+                      owner.module, fn,
+                      sample='%s(CpoR=[0, cp1, ..., cp14]) -> Cp coefficients from the fit' % con)
+    return n
+
+
 def candidate_search(run, repo, tables):
     """T_mid given as a list of candidates: the species is built from the candidate with the smallest fit error -
     break temperature, low and high coefficients all from the SAME candidate (the errors are uninterpreted positive
@@ -301,6 +342,98 @@ def candidate_search(run, repo, tables):
                   'the candidate with the smallest error (%s)' % (show(tm), why or 'coefficients from that candidate',
                                                                    better), owner.module, fn,
                   sample='Nasa.from_data(T_mid=[Tma, Tmb]) with %s better -> T_mid=%s' % (better, better))
+    return n
+
+
+class GridVec(fitmodel.DataVec):
+    """generic temperature data on an ascending grid of a KNOWN number of points: as a whole it is a data vector like
+    any other (masks, np.extract, least squares), but single entries and slices are the entries at those positions
+    (T[5:-5] of 15 points is the list T[5] ... T[9]); entry k is ranked base + k for the ordering oracle"""
+
+    def __init__(self, r, npts, ranks, base):
+        fitmodel.DataVec.__init__(self, r, 'generic')
+        self.npts, self.ranks, self.base = npts, ranks, base
+        self.entries = {}
+
+    def entry(self, fr, k, n):
+        v = fr.getitem(self, C(k), n)
+        for a_ in v.atoms():
+            self.ranks[a_] = self.base + k
+            self.entries[a_] = k
+        return v
+
+    def pmv_getitem(self, I, fr, idx, n):
+        def const_int(x):
+            if x is None:
+                return None
+            v = fr.ev(x)
+            if isinstance(v, Rat) and v.iszero():
+                return 0
+            if isinstance(v, Rat) and v.is_const() and v.const_value().denominator == 1:
+                return int(v.const_value())
+            raise Unsupported('slice of the temperature data with symbolic bounds', n)
+        if isinstance(n.slice, ast.Slice):
+            ks = range(self.npts)[const_int(n.slice.lower):const_int(n.slice.upper):const_int(n.slice.step)]
+            out = ListV([self.entry(fr, k, n) for k in ks])
+            out.is_array = True
+            return out
+        if isinstance(idx, Rat) and (idx.iszero() or (idx.is_const() and idx.const_value().denominator == 1)):
+            k = 0 if idx.iszero() else int(idx.const_value())
+            if not -self.npts <= k < self.npts:
+                raise _RaisedExc(Raised('IndexError', n))
+            return self.entry(fr, k % self.npts, n)
+        return fr.getitem(self, idx, n)
+
+
+def default_break_search(run, repo):
+    """T_mid not given: from_data screens data points by itself.  Bounded instance: generic Cp data on an ascending
+    grid of 15 temperatures (the smallest n_T of the property), the fit error (an uninterpreted positive number per
+    candidate) growing resp. falling with the candidate temperature - then the lowest resp. highest candidate that is
+    screened becomes the break, and it must lie strictly inside the span of the data."""
+    ci = repo.cls(NASA + '.Nasa')
+    owner, fn = repo.find_method(ci, 'from_data')
+    npts, base = 15, 100
+    n = 0
+    for trend in ('grows', 'falls'):
+        ranks = {'len<vec>': 1000, 'cp': 1, 'T_ref': Fr(2 * base + 5, 2), 'MIN{(Tdata)}': base,
+                 'MAX{(Tdata)}': base + npts - 1}
+        holder = {}
+
+        def fb(a_, trend=trend, holder=holder):
+            if a_.startswith('MEAN{'):
+                # the error of the fit split at candidate T[k] (the candidate is named in the masks of the residual)
+                ks = sorted({k for nm, k in holder['T'].entries.items() if nm in a_})
+                if len(ks) != 1:
+                    return None
+                return 1 + ks[0] if trend == 'grows' else 1 + npts - ks[0]
+            return None
+        I = Interp(repo, order=RankOrder(ranks, const_ranks=True, fallback=fb))
+        fitmodel.install(I)
+        D = I.D
+        I.data_kind['Tdata'] = 'generic'
+        holder['T'] = GridVec(D.sym('Tdata'), npts, ranks, base)
+        kw = {'name': 'sp', 'T': holder['T'], 'CpoR': fitmodel.data_vector(I, 'cp', 'generic'),
+              'T_ref': D.sym('T_ref'), 'HoRT_ref': D.sym('HoRT_ref'), 'SoR_ref': D.sym('SoR_ref')}
+        o = I.call_function(owner.module, fn, [], kw, self_obj=ci, owner=owner, name=owner.qual + '.from_data')
+        key = 'no T_mid given, %d temperatures, fit error %s with the candidate break' % (npts, trend)
+        n += 1
+        if not isinstance(o, Obj):
+            run.fail('REF.break-inside', 'nasa.Nasa.from_data', key, 'from_data does not build a species: %s'
+                     % show(o, 120), owner.module, fn)
+            continue
+        tm = o.attrs.get('T_mid')
+        order = I.order
+        lo_ok = order(tm, '>', D.sym('MIN{(Tdata)}')) if isinstance(tm, Rat) else None
+        hi_ok = order(tm, '<', D.sym('MAX{(Tdata)}')) if isinstance(tm, Rat) else None
+        if lo_ok is None or hi_ok is None:
+            raise Unsupported('the break temperature chosen by Nasa.from_data without T_mid is not an entry of the '
+                              'temperature data: %s' % show(tm, 120))
+        k = holder['T'].entries.get(next(iter(tm.atoms())))
+        run.check(lo_ok and hi_ok, 'REF.break-inside', 'nasa.Nasa.from_data', key,
+                  'the break temperature is data point %s of %d (ascending): on the %s bound of the fitted species, one '
+                  'segment is fitted to no data at all; the candidates screened must be interior data points'
+                  % (k, npts, 'lower' if not lo_ok else 'upper'), owner.module, fn,
+                  sample='Nasa.from_data(T_mid=None), 15 points, error %s -> T_mid = T[%s]' % (trend, k))
     return n
 
 
@@ -371,6 +504,54 @@ def nasa7_pipeline(run, repo, tables):
     return n
 
 
+def grid(t_low, t_high, n):
+    """n equally spaced temperatures from t_low to t_high (what from_model samples), exact"""
+    v = ListV([C(Fr(t_low) + Fr((t_high - t_low) * k, n - 1)) for k in range(n)])
+    v.is_array = True
+    return v
+
+
+def nasa7_fallback_break(run, repo):
+    """degenerate Cp data (all zero / containing NaN) on a concrete ascending grid: the break temperature that
+    from_data chooses by itself lies strictly inside the span of the data (n_T = 15, 16, 200: the smallest grids of
+    the property, odd and even, and the largest)"""
+    ci = repo.cls(NASA + '.Nasa')
+    owner, fn = repo.find_method(ci, 'from_data')
+    n = 0
+    for npts, kind in itertools.product((15, 16, 200), ('zero', 'nan')):
+        t_lo, t_hi = 300, 1000
+        I = Interp(repo, order=RankOrder({'T_ref': 400}, const_ranks=True, fallback=_fallback_rank))
+        fitmodel.install(I)
+        D = I.D
+        cp = [C(0)] * npts
+        if kind == 'nan':
+            I.data_kind['cpnan'] = 'nan'
+            cp[3] = D.sym('cpnan')
+        cp = ListV(cp)
+        cp.is_array = True
+        kw = {'name': 'sp', 'T': grid(t_lo, t_hi, npts), 'CpoR': cp, 'T_ref': D.sym('T_ref'),
+              'HoRT_ref': D.sym('HoRT_ref'), 'SoR_ref': D.sym('SoR_ref')}
+        o = I.call_function(owner.module, fn, [], kw, self_obj=ci, owner=owner, name=owner.qual + '.from_data')
+        key = '%s on a grid of %d temperatures, no T_mid given' % (
+            'all-zero Cp' if kind == 'zero' else 'Cp with one NaN', npts)
+        n += 1
+        if not isinstance(o, Obj):
+            run.fail('REF.break-inside', 'nasa.Nasa.from_data', key, 'from_data does not build a species: %s'
+                     % show(o, 120), owner.module, fn)
+            continue
+        lo, tm, hi = o.attrs.get('T_low'), o.attrs.get('T_mid'), o.attrs.get('T_high')
+        vals = [v.const_value() if isinstance(v, Rat) and v.is_const() else (Fr(0) if isinstance(v, Rat) and v.iszero()
+                                                                              else None) for v in (lo, tm, hi)]
+        ok = None not in vals and vals[0] == t_lo and vals[2] == t_hi and vals[0] < vals[1] < vals[2]
+        run.check(ok, 'REF.break-inside', 'nasa.Nasa.from_data', key,
+                  'data on %d temperatures from %d K to %d K give (T_low, T_mid, T_high) = (%s, %s, %s): the bounds '
+                  'must be the span of the data and the break must lie strictly between them'
+                  % (npts, t_lo, t_hi, show(lo), show(tm), show(hi)), owner.module, fn,
+                  sample='Nasa.from_data(T=linspace(%d, %d, %d), CpoR=%s) -> T_low < T_mid=%s < T_high'
+                  % (t_lo, t_hi, npts, 'zeros' if kind == 'zero' else 'zeros with one NaN', show(tm)))
+    return n
+
+
 def nasa9_pipeline(run, repo, tables, max_seg):
     ci = repo.cls(NASA + '.Nasa9')
     owner, fn = repo.find_method(ci, 'from_data')
@@ -433,6 +614,32 @@ def nasa9_pipeline(run, repo, tables, max_seg):
                       sig=lambda: 'the first segment reproduces the reference at T_ref, segment %d does not' % j
                       if j and same(S(A[0], Tref), Sref) else 'S/R(T_ref) = %s' % show(S(A[j], Tref), 80))
             n += 2
+    return n
+
+
+def nasa9_species_bounds(run, repo, max_seg):
+    """the bounds a user reads from the fitted NASA-9 species itself (not from its segments) are the span of the data,
+    for break temperatures given in ascending order strictly inside the data"""
+    ci = repo.cls(NASA + '.Nasa9')
+    owner, fn = repo.find_method(ci, 'from_data')
+    n = 0
+    for nseg, kind in itertools.product(range(1, max_seg + 1), ('generic', 'zero')):
+        ranks = {'MIN{(Tdata)}': 10, 'MAX{(Tdata)}': 100}
+        ranks.update({'Tm%d' % k: 20 + k for k in range(nseg - 1)})
+        I, o, _o, _f = fitted(repo, NASA + '.Nasa9', kind, nasa9_extra(nseg), ranks)
+        D = I.D
+        key = 'segments:%d species bounds' % nseg + (' [all-zero Cp data]' if kind == 'zero' else '')
+        n += 1
+        if not isinstance(o, Obj):
+            run.fail('DATAFLOW.bounds', 'nasa.Nasa9.from_data', key, 'from_data does not build a species: %s'
+                     % show(o, 120), owner.module, fn)
+            continue
+        lo, hi = get_public(I, o, 'T_low'), get_public(I, o, 'T_high')
+        run.check(same(lo, D.sym('MIN{(Tdata)}')) and same(hi, D.sym('MAX{(Tdata)}')), 'DATAFLOW.bounds',
+                  'nasa.Nasa9.from_data', key,
+                  'the fitted species reports the temperature bounds (%s, %s), not the span (min, max) of the data '
+                  '(breaks ascending inside the data)' % (show(lo, 60), show(hi, 60)), owner.module, fn,
+                  sample='Nasa9.from_data(%d segments): species T_low/T_high = min/max of the data' % nseg)
     return n
 
 
@@ -637,11 +844,19 @@ def check(run, repo):
                                 for k, v in tables.items()}})
     n = fit_rules(run, repo, tables)
     run.floor('fitted coefficient vectors', n, 20)
+    n = partly_zero_data(run, repo, tables)
+    run.floor('partly zero data instances', n, 1)
     candidate_search(run, repo, tables)
+    n = default_break_search(run, repo)
+    run.floor('default break search instances', n, 2)
     n = nasa7_pipeline(run, repo, tables)
     run.floor('NASA-7 pipeline instances', n, 21)
+    n = nasa7_fallback_break(run, repo)
+    run.floor('NASA-7 fallback break instances', n, 6)
     n = nasa9_pipeline(run, repo, tables, 4 if run.tier == 'thorough' else 3)
     run.floor('NASA-9 pipeline instances', n, 20)
+    n = nasa9_species_bounds(run, repo, 3)
+    run.floor('NASA-9 species bounds', n, 6)
     shomate_pipeline(run, repo, tables)
     n = from_model(run, repo)
     run.floor('from_model instances', n, 15)
